@@ -153,6 +153,24 @@ def handle (op : String) (c i : Json) : Except String (Json × String) := do
             | .str nm => if cands.any (·.name == nm) then "ok" else "fail: decoded with a frame of a different PGN"
             | _ => "fail: unexpected observation"
     pure (m, s)
+  | "jdec" =>
+    -- canmatrix.j1939_decoder.decode(id, payload, matrix): the matrix's own frame of the received PGN takes precedence over the bundled
+    -- J1939 database; c = {"frames", "k"}; i = {"kind": "regular" | "known" | "other", "name": frame name if regular}
+    let fs ← frames (← J.key c "frames")
+    let k : ArbId := ⟨← J.nat (← J.idx (← J.key c "k") 0), ← J.bool (← J.idx (← J.key c "k") 1)⟩
+    let cands := fs.filter fun f => f.aid.ext && Spec.pgn f.aid.id == Spec.pgn k.id
+    let m := match cands with
+      | f :: _ => J.obj [("kind", Json.str "regular"), ("name", Json.str f.name)]
+      | [] => J.obj [("kind", Json.str "not-regular")]
+    let kind ← J.str (← J.key i "kind")
+    let s := match cands with
+      | [] => if kind == "regular" then "fail: decoded with a frame of the matrix although none carries the received PGN" else "ok"
+      | _ =>
+        if kind != "regular" then "fail: the matrix has a frame of the received PGN but it was not used"
+        else match i.getObjVal? "name" with
+          | .ok (.str nm) => if cands.any (·.name == nm) then "ok" else "fail: decoded with a frame of a different PGN"
+          | _ => "fail: unexpected observation"
+    pure (m, s)
   | _ => throw s!"C09: unknown op {op}"
 
 end D09
